@@ -78,3 +78,19 @@ Definition chk_wire (t : pty) (sender : N) (members : list N) (items : list (N *
               recv_eqb (conv (snd r))
                        (map (fun p => (from_raw_id sender, snd p))
                             (filter (fun p => fst p =? fst r) items))) recv) 2).
+
+(* the generated closures themselves (embedded code generation of a cluster->cluster demux):
+   `wire` = what the sender's generated dataflow handed to the network, `recv` = what each
+   member's generated receiver dataflow produced from the frames addressed to it *)
+Fixpoint wire_eqb (a : list (tagless * list N)) (b : list (N * list N)) : bool :=
+  match a, b with
+  | [], [] => true
+  | (t, x) :: a', (d, y) :: b' => tagless_eqb t (Legacy d) && bytes_eqb x y && wire_eqb a' b'
+  | _, _ => false
+  end.
+
+Definition chk_emb (t : pty) (sender : N) (members : list N) (items : list (N * val))
+           (wire : list (N * list N)) (recv : list (N * list (N * val))) : N :=
+  let items' := map (fun p => (from_raw_id (fst p), snd p)) items in
+  bor (bit (match map_opt (ser_demux t) items' with Some w => wire_eqb w wire | None => false end) 1)
+      (chk_wire t sender members items recv).
